@@ -124,8 +124,14 @@ pub fn finish(report: Report) -> i32 {
         for h in report.harness_errors.iter().take(5) {
             eprintln!("HARNESS-ERROR {}", h);
         }
-        println!("HARNESS-ERROR property={} count={} (no verdict)", report.property, report.harness_errors.len());
-        return 2;
+        if new_violations == 0 {
+            println!("HARNESS-ERROR property={} count={} (no verdict)", report.property, report.harness_errors.len());
+            return 2;
+        }
+        // a violation that was minimised and reproduced in a fresh process stands on its own; the
+        // harness errors beside it (typically: a run that no longer replays in its worker because
+        // the defect keeps process-wide state) are reported, they do not void it
+        println!("HARNESS-ERROR property={} count={} (beside {} confirmed violation(s))", report.property, report.harness_errors.len(), new_violations);
     }
     println!(
         "{} {} seed={} evaluations={} violations={} known={} wall={:.1}s evidence={}",
